@@ -79,6 +79,32 @@ add("C20", "TLC proves OldOrNew for the write-to-sibling-then-rename design with
     SYNC_TECH + "; Cli.tla accept/reject relation + CliTrace.tla", "DESIGN.md 5.7, 5.8, 8 C20")
 
 
+add("C07", "Merge.tla: TLC explores every schedule of the docstring/signature merge (pad, take, append in any order, reorder) for every "
+    "signature x docstring subset/order and proves NoDropNoDup, SigDefaults, SourceOrder, Deterministic for the intended design (and refutes "
+    "them for the set-iteration / front-padding designs). Generated definitions (function, method, class+__init__; positional / keyword-only / "
+    "**kwargs; annotated or not; 3 docstring styles; partial, out-of-order documentation) are executed and read with inspect, parsed by "
+    "doctrans under several PYTHONHASHSEEDs, and TLC validates the result against Python's view (MergeTrace.tla).",
+    "Trusted: TLC, the generator and the inspect-based observer (vf/merge_check.py). Bounds: 3 parameters + **kwargs, <= 2 class attributes; "
+    "positional-only and *args excluded (outside the stated subset).",
+    "TLA+ spec (Merge.tla, algorithm as steps with the set iteration as a schedule) model-checked with TLC; real parses validated by TLC (MergeTrace.tla)",
+    "DESIGN.md 5.3, 8 C07")
+add("C12", "Process.tla: outputs must be a function of (operation, input) whatever the hidden state of the calling process; TLC proves the memo "
+    "discipline (Functional) and, on Merge.tla, that the merge result does not depend on the schedule. Real experiment: one interpreter per "
+    "PYTHONHASHSEED (0..N and random) x 3 call orders x 2 rounds, each parsing every generated definition and emitting all six kinds from it; "
+    "the merged (process, sequence) history is validated by TLC against the memo (ProcessTrace.tla).",
+    "Trusted: TLC, digests of canonical serialisations (D18). Bounds: the generated definitions of C07; gen is covered by C19.",
+    "TLA+ spec (Process.tla memo + Merge.tla schedule exploration) model-checked with TLC; multi-process call logs validated by TLC (ProcessTrace.tla)",
+    "DESIGN.md 5.8, 8 C12")
+add("C13", "Sharing.tla: TLC explores every sequence of emitter / parser calls on one shared object (state space = reachable taint sets) and proves "
+    "NonInterference / ObsEquiv when every call works on a copy, and refutes it with a two-call counterexample for in-place write sets. Real "
+    "sequences: all sequences with repetition up to length 3 (all of length 4 in thorough) over 7 emitters on one shared IR x 4 IRs, and all "
+    "sequences up to 4 of parse calls on one shared AST; each call's output is compared with the same call on a fresh deep copy and the shared "
+    "object's taints are validated by TLC (SharingTrace.tla).",
+    "Trusted: TLC, the taint observer (vf/sharing_check.py). Outputs compared as text / canonical IR serialisation.",
+    "TLA+ spec (Sharing.tla write-set / read-set model) model-checked with TLC; real call sequences validated by TLC (SharingTrace.tla)",
+    "DESIGN.md 5.2, 8 C13")
+
+
 def main():
     props = [json.loads(l)["id"] for l in open(os.path.join(HERE, "properties.jsonl"))]
     m = {
